@@ -64,7 +64,7 @@ def type_class(d):
     """the library's documented value classes; None = not a supported value type"""
     k = d[0]
     return {"pybool": "bool", "npbool": "bool", "pyint": "int", "npint32": "int", "npint64": "int", "npuint8": "int",
-            "pyfloat": "float", "npfloat32": "float", "npfloat64": "float", "pycomplex": "complex", "str": "str"}.get(k)
+            "pyfloat": "float", "npfloat32": "float", "npfloat64": "float", "pycomplex": "complex", "npcomplex": "complex", "str": "str"}.get(k)
 
 
 def castable(src, dst):
